@@ -37,9 +37,16 @@ def dec(x):
     return F(x)
 
 
+MIXED = False  # per-case switch (worker.setup_case): the exact class is written the way users write it, Python ints
+# for the integral values and Fractions for the others, in knots, points, weights, nodes and parameters alike
+
+
 def num(x, numtype):
     """Fraction -> number of the requested representation"""
     if numtype == "frac":
+        if MIXED:
+            x = F(x)
+            return int(x) if x.denominator == 1 else x
         return F(x)
     if numtype == "float":
         return float(x)
@@ -98,11 +105,32 @@ def nurbs():
     return m
 
 
+def scribble(x):
+    """overwrite a container the harness handed to the library: knot and weight sequences are copied by the library, so
+    what the caller does with its own list / array afterwards must not reach the object"""
+    if isinstance(x, np.ndarray):
+        if x.dtype == object:
+            for i in np.ndindex(x.shape):
+                x[i] = F(977, 7)
+        else:
+            x[...] = 977
+    elif isinstance(x, list):
+        for i in range(len(x)):
+            x[i] = F(977, 7)
+
+
 def mk_curve(U, P, W, numtype):
     m = nurbs()
     # "fracint": Fraction knots with Python ints for integral control points / weights (the other exact class of C16)
     kv = nums(U, "frac" if numtype == "fracint" else numtype)
-    c = m.Curve(kv, mk_points(P, numtype), None if W is None else nums(W, numtype))
+    w = None if W is None else nums(W, numtype)
+    if w is not None and len(kv) % 2 == 0:
+        w = container(w, "oarray")
+    if len(kv) % 3 == 0:
+        kv = container(kv, "oarray")
+    c = m.Curve(kv, mk_points(P, numtype), w)
+    scribble(kv)
+    scribble(w)
     return c
 
 
@@ -283,8 +311,10 @@ def container(seq, how):
     seq = list(seq)
     if how == "tuple":
         return tuple(seq)
-    if how == "array":
-        if any(isinstance(x, F) for x in seq) or not seq:
+    if how in ("array", "oarray"):
+        # "oarray": exact numbers (also Python ints) stay Python objects; numpy integer scalars are not a number type
+        # any statement names
+        if any(isinstance(x, F) for x in seq) or not seq or (how == "oarray" and all(type(x) is int for x in seq)):
             arr = np.empty(len(seq), dtype=object)
             for i, x in enumerate(seq):
                 arr[i] = x
